@@ -179,8 +179,8 @@ theorem cp2k_edit_exact_present (u : Upd) (st : St) (i : Nat) (n : Node)
     · simp [updateNode, href, hn, hr]
     · simp
     · intro j hj
-      simp [List.getElem?_set, Ne.symm hj]
-    · simp [List.getElem?_set, hi, hr]
+      simp [Ne.symm hj]
+    · simp [hi, hr]
   · have hr' : u.replace = false := by simpa using hr
     rcases hmode with h | ⟨hl, htok⟩
     · exact absurd h hr
@@ -189,8 +189,8 @@ theorem cp2k_edit_exact_present (u : Upd) (st : St) (i : Nat) (n : Node)
       · simp [updateNode, href, hn, hr', hm]
       · simp
       · intro j hj
-        simp [List.getElem?_set, Ne.symm hj]
-      · simp [List.getElem?_set, hi, hr']
+        simp [Ne.symm hj]
+      · simp [hi, hr']
 
 
 /-! ### tokens -/
@@ -495,7 +495,7 @@ theorem ext_child (st : St) (pi : Nat) (pn nn : Node) (key : Str) (hp : st.arena
       refine ⟨{ pn with children := pn.children ++ [st.arena.length] }, ?_, rfl, rfl, rfl, rfl, rfl, List.prefix_append _ _⟩
       simp [List.getElem?_append_left hj', hj]
     · refine ⟨a, ?_, rfl, rfl, rfl, rfl, rfl, List.prefix_refl _⟩
-      simp [List.getElem?_append_left hj', List.getElem?_set, e, h]
+      simp [List.getElem?_append_left hj', e, h]
   · intro k v h
     rw [dget_dset]
     by_cases e : key = k
